@@ -19,7 +19,9 @@ from common import CompResult, Disagreement, Violation, b, esc, h, run_driver, s
 DIRS = ["r1", "r1/sub", "r1", "r1/sub", "r2", "r1", "r1/sub", "r1/sub/deep", "r1/.hid", "r1/.hid/in", "r2", "r2/__pycache__", "r2/pkg", "out", ".top", ".top/x"]
 NAMES = ["a.py", "b.txt", ".hidden.py", "c.pyc", "d.py~", "e f.py", "x.pyc.py", "mod.py", "mod.pyc", "y.PYC", "z.pyc.", "n"]
 ROOTSETS = [["r1"], ["r1", "r2"], ["r1", "r1"], ["r1", "r1/sub"], ["r1/sub", "r1"], ["r2", "r1", "r2"], [".top"], ["r1/.hid"],
-            ["r1", "r1/sub/deep", "r2/pkg"], ["nonexistent", "r2"], []]
+            ["r1", "r1/sub/deep", "r2/pkg"], ["nonexistent", "r2"], [],
+            # a root nested in another one *through a hidden directory*: the outer walk prunes it, only its own walk reaches it
+            ["r1", "r1/.hid"], ["r1/.hid/in", "r1"], ["r1", "r1/.hid/in", "r2"]]
 
 
 def snapshot(base: Path) -> dict[str, tuple[int, int]]:
